@@ -506,6 +506,20 @@ def hSelectNodes (inp out : Json) : Except String Findings := do
       let fs := spec fs "C15.keep" (Spec.C15.keep t c nodes current res)
       let fs := spec fs "C15.count" (Spec.C15.count c base current res err)
       let fs := spec fs "C15.all-valid" (err || Spec.C15.allValid t c nodes res)
+      -- metamorphic: a previously selected node that is still listed but no longer valid must not
+      -- influence the outcome (it takes no slot, no quota): the selection equals the selection made
+      -- from the list without such names  (theorem C15_invalid_previous_irrelevant)
+      -- "listed" = returned by the selector-scoped node list the controller works from (names that are
+      -- not listed at all are the known finding F6a and stay as they are)
+      let listedInvalid := fun (nm : String) => nodes.any (fun n => n.name == nm && !fit t n &&
+          (match c.nodeSelector with
+           | some sel => (labelSelectorMatches sel n.labels).getD true
+           | none => true))
+      let cleaned := current.filter (fun nm => !listedInvalid nm)
+      let fs := match selectNodes rs.template c base cleaned pods nodes with
+        | .ok (m2, short2) =>
+          spec fs "C15.invalid-previous-irrelevant" (sortStrs res == sortStrs m2 && err == short2)
+        | _ => fs
       return fs
 
 /-! ### kubectl-eds command bodies -/
@@ -844,8 +858,11 @@ def hErsReconcile (inp out : Json) : Except String Findings := do
         else applicable.any (fun s => Spec.C10.resources c.pod rs.template n (some s))))
   -- C14: counter ordering for the active / canary role
   let fs := match o.statusUpdate with
-    | some s => spec fs "C14.ers-order" (s.status == "unknown" || s.status == "" ||
-                  (0 ≤ s.available && s.available ≤ s.ready && s.ready ≤ s.current && s.current ≤ s.desired))
+    | some s =>
+      -- invariant form: a status whose counters were ordered stays ordered (a sync that does not reach
+      -- the strategy, e.g. "parent not defaulted", rewrites conditions only and keeps the counters)
+      let ordered := fun (x : ERSStatus) => decide (0 ≤ x.available && x.available ≤ x.ready && x.ready ≤ x.current && x.current ≤ x.desired)
+      spec fs "C14.ers-order" (s.status == "unknown" || s.status == "" || !ordered rs.status || ordered s)
     | none => fs
   -- C11/C17: pod operations precede the status write
   let fs := spec fs "C11.status-last" (match o.order.findIdx? (·.startsWith "status:ERS") with
@@ -985,6 +1002,42 @@ def hMetrics (inp out : Json) : Except String Findings := do
   let fs := spec fs "C20.info-labels" (info es "eds_labels" d.labels && info rs "ers_labels" e.labels)
   return fs
 
+/-! ### setting rounds (C18: every setting reconciled once, in two orders) -/
+structure SettingStatusJ where
+  name : String
+  status : String
+  error : String
+  deriving FromJson
+
+def hSettingRounds (inp out : Json) : Except String Findings := do
+  let settings : List Setting ← get inp "settings"
+  let nodes : List Node ← get inp "nodes"
+  let a1 : List SettingStatusJ ← get out "after1"
+  let a2 : List SettingStatusJ ← get out "after2"
+  let pn : Bool ← get out "panic"
+  let foreign : List String ← get out "foreign"
+  let fs : Findings := #[]
+  let fs := spec fs "C16.reconcile-no-crash(Setting)" (!pn)
+  if pn then return fs else
+  let statusOf (l : List SettingStatusJ) (n : String) : String :=
+    match l.find? (fun x => x.name == n) with | some x => x.status ++ "|" ++ x.error | none => "?"
+  -- model: the status is a function of the specs and the nodes only
+  let fs := settings.foldl (fun fs s =>
+      let m := settingReconcile s nodes settings
+      let fs := diff fs s!"after1({s.name})" (statusOf a1 s.name) (m.1 ++ "|" ++ m.2)
+      diff fs s!"after2({s.name})" (statusOf a2 s.name) (m.1 ++ "|" ++ m.2)) fs
+  let validIn (l : List SettingStatusJ) (s : Setting) : Bool :=
+    match l.find? (fun x => x.name == s.name) with | some x => x.status == "valid" | none => false
+  let exclusive (l : List SettingStatusJ) : Bool :=
+    nodes.all (fun n =>
+      ((settings.filter (fun s => validIn l s && settingMatches s n.labels == some true)).length ≤ 1))
+  let fs := spec fs "C18.mutual-exclusion(after one reconcile each)" (exclusive a1 && exclusive a2)
+  let fs := spec fs "C18.order-independent" (settings.all (fun s => statusOf a1 s.name == statusOf a2 s.name))
+  let fs := spec fs "C18.no-reference-or-bad-selector-in-error" (settings.all (fun s =>
+      !((s.reference.getD "") == "" || s.badSelector) || !validIn a1 s))
+  let fs := spec fs "C12.writes-owned(setting)" foreign.isEmpty
+  return fs
+
 /-! ### PodTemplate controller (C13, last clause) -/
 deriving instance FromJson for PodTpl
 
@@ -1030,6 +1083,7 @@ def hPodTemplate (inp out : Json) : Except String Findings := do
 
 def handlers : List (String × (Json → Json → Except String Findings)) := [
   ("podtemplate", hPodTemplate),
+  ("setting_rounds", hSettingRounds),
   ("limits", hLimits),
   ("max_creation", hMaxCreation),
   ("manage_deployment", hManageDeployment),
